@@ -125,7 +125,14 @@ def build_model(case):
         else:
             p = probs[min(l - lmin, len(probs) - 1)]
             ref = rng.random_sample((n, m.twotondim)) < p
-            if case.get("deep_branch") and n > 0:
+            if case.get("deep_toward") and n > 0:
+                # refine the cell that contains the point just below `deep_toward` in every dimension: a chain of ever
+                # finer cells hugging that point (used to put the deepest levels next to a coarse cube boundary)
+                tgt = np.array(case["deep_toward"][:ndim]) - 1e-9
+                cc = centres[:, None, :] + off[None, :, :] * (0.5 ** l)
+                inside = np.all(np.abs(cc - tgt[None, None, :]) <= 0.5 * 0.5 ** l, axis=2)
+                ref |= inside
+            elif case.get("deep_branch") and n > 0:
                 ref[rng.randint(n), rng.randint(m.twotondim)] = True
             if total + ref.sum() * m.twotondim > ncells_budget:
                 ref[:] = False
@@ -303,7 +310,15 @@ def write_output(m, path, nout=None):
     if m.part_desc:
         write_desc("part_file_descriptor.txt", [x[0] for x in m.part_desc], [x[1] for x in m.part_desc])
 
-    nxyz = [3 if (B > 0 and dd < case.get("boundary_dims", ndim)) else 1 for dd in range(ndim)] + [1] * (3 - ndim)
+    if case.get("coarse3"):
+        # per-dimension choice: boundaries (and hence 3 coarse cells) in any subset of the dimensions
+        flags = list(case["coarse3"][:ndim])
+        if B > 0 and not any(flags):
+            flags[0] = True
+        nxyz = [3 if (B > 0 and flags[dd]) else 1 for dd in range(ndim)] + [1] * (3 - ndim)
+    else:
+        nxyz = [3 if (B > 0 and dd < case.get("boundary_dims", ndim)) else 1 for dd in range(ndim)] + [1] * (3 - ndim)
+    m.nxyz = nxyz
     xbound = [float(int(n / 2)) for n in nxyz]
     ncoarse = nxyz[0] * nxyz[1] * nxyz[2]
     noutput = case["noutput"]
